@@ -145,7 +145,7 @@ func decodeOp(op []int64) (layers []layerSpec, acts []act, proto int64, ok bool)
 			}
 			phase = 1
 			switch a.a {
-			case 200, 201, 202, 400, 404, 500, 502:
+			case 200, 201, 202, 203, 205, 400, 404, 409, 500, 502:
 			default:
 				return nil, nil, 0, false
 			}
@@ -482,7 +482,7 @@ func (c *stackComp) Gen(rng *rand.Rand, idx int, tier string, targeted bool) hli
 				}
 			}
 			if info || rng.Intn(3) != 0 {
-				op = append(op, 1, hlib.Pick(rng, 200, 200, 201, 202, 400, 404, 500, 502))
+				op = append(op, 1, hlib.Pick(rng, 200, 200, 201, 202, 203, 205, 400, 404, 409, 500, 502))
 			}
 			for k := 0; k < rng.Intn(4); k++ {
 				if rng.Intn(3) == 0 {
